@@ -335,17 +335,17 @@ for _n, _s in [("k_parse_reject_one", "x"), ("k_parse_reject_three", "x,y,z")]:
                     what="the string \"%s\" is reported as an error, no panic" % _s)
 
 PROPS["C11"] = dict(
-    level="other", units=["geom"], kani=["k_serde_f64"], lemmas=[], premises=sorted(PREMISES),
+    level="other", units=["geom", "state"], kani=["k_serde_f64"], lemmas=[], premises=sorted(PREMISES),
     explanation="Scope: hand-written glue, plus the hypothesis of the one assumed dependency contract. Kani proves for all bit patterns that SharedValue's custom Serialize emits exactly one f64 with the cell's bits (no narrowing) and that Deserialize rebuilds a cell with exactly the visited value "
                 "(probe Serializer/Deserializer). Verus proves that Transform2::as_svg passes the six matrix entries to the `matrix(a b c d e f)` format string in SVG's column-major order (m00 m10 m01 m11 m02 m12) "
-                "and that Into<Matrix3> returns the transform's own matrix. "
+                "and that Into<Matrix3> returns the transform's own matrix. Verus proves on the real loops of both state-level as_svg functions (statement slices, rule R16; the svg crate's builders seen as a list of <use> elements) that the document places the cell outline at the cell and its 8 neighbours and then, for every placement in order, the shape at the placement's Cartesian transform (blue) followed by the shape at exactly that placement's nearest lattice images, untranslated one excluded (green) (svg.uses, svg.block). "
                 "The derive-generated Serialize/Deserialize of the 14 state/cell/site/shape structs is ASSUMED (not verified) to write and read every field when the struct carries both derives and no #[serde(..)] attribute; "
                 "that hypothesis is checked on the struct text extracted from the working tree on every run (premises, counted separately, never as proved obligations). When it stops holding the assumed contract no longer applies: "
                 "the native round-trip oracle (replay/witness.rs::serde_roundtrip: 7 groups x 6 shapes x 40 parameter vectors, Debug rendering / copies / score before and after JSON) is run and a violation is reported only with the failing input it finds; otherwise undecided.",
-    assumptions=_GEOM_ASSUMPTIONS[:1] + ["serde derive on a struct with both derives and no #[serde(..)] attribute serialises every field under its own name and deserialises every field (derive-generated code is not verified; the hypothesis on the struct text is checked every run)"],
+    assumptions=_STATE_ASSUMPTIONS + ["svg shims: Document::add appends one element, Use::set(\"href\"|\"fill\", v) sets that attribute only; Transform2::as_svg yields a <use> carrying the transform (unit geom svg.order)", "serde derive on a struct with both derives and no #[serde(..)] attribute serialises every field under its own name and deserialises every field (derive-generated code is not verified; the hypothesis on the struct text is checked every run)"],
     undecided=["the derive-generated code itself (macro output, no contract within reach): only the hypothesis of its assumed contract is checked",
                "decimal printing/parsing inside serde_json (an independent seeding agent observed 1-ulp differences on the pinned serde_json 1.0.57 without float_roundtrip: 'identical score' holds only to ~1e-16 relative)",
-               "the svg crate and the state-level as_svg loops (which placements and images are drawn)"],
+               "the svg crate itself (element/attribute text), the viewBox arithmetic and the <defs> of cell and shape (outside the slice)"],
 )
 PROPS["C17"] = dict(
     level="other", units=["geom"], lemmas=[],
